@@ -4,64 +4,9 @@
    equational reasoning on list segments (no enumeration of packets, protocols or ports). *)
 From Coq Require Import List NArith Bool Arith Lia ZifyBool ZifyNat ZifyN.
 From GoProbe.Base Require Import CorrLib.
-From GoProbe.C19 Require Import Model.
+From GoProbe.C19 Require Import Model Spec.
 Import ListNotations.
 Open Scope N_scope.
-
-(* ================================================================ specification vocabulary *)
-
-(* the documented common service ports (comments of the commonPorts table), as port numbers *)
-Definition documented_common : list (N * N) :=
-  [ (6, 53); (6, 80); (6, 443); (6, 445); (6, 8080); (17, 53); (17, 443) ].
-Definition is_documented_common (proto port : N) : bool :=
-  existsb (fun e => (fst e =? proto) && (snd e =? port)) documented_common.
-
-(* IPv4 fragment offset: low 13 bits of bytes 6..7 *)
-Definition is_fragment_v4 (p : bytes) : bool :=
-  negb (nth 9 p 0 =? ESP) && negb ((nth 6 p 0 mod 32 =? 0) && (nth 7 p 0 =? 0)).
-
-(* bytes the parser needs for a protocol *)
-Definition need_v4 (proto : N) : nat :=
-  if proto =? TCP then 34 else if proto =? UDP then 24 else if proto =? ICMP then 21 else 20.
-Definition need_v6 (proto : N) : nat :=
-  if proto =? TCP then 54 else if proto =? UDP then 44 else if proto =? ICMPv6 then 41 else 40.
-
-(* auxiliary byte: TCP flags, ICMP type, else 0 *)
-Definition aux_spec (off : nat) (icmp : N) (p : bytes) (proto : N) : N :=
-  if proto =? TCP then nth (off + 13) p 0 else if proto =? icmp then nth off p 0 else 0.
-
-(* the documented port rule, on the two port bytes at [off, off+2) and [off+2, off+4):
-   a side's port is dropped (zero) when the OTHER side's port is a common service port *)
-Definition sport_spec (off : nat) (p : bytes) (proto : N) : bytes :=
-  if has_ports proto && negb (common_port_b proto (nth (off + 2) p 0) (nth (off + 3) p 0))
-  then sub p off (off + 2) else zero2.
-Definition dport_spec (off : nat) (p : bytes) (proto : N) : bytes :=
-  if has_ports proto && negb (common_port_b proto (nth off p 0) (nth (off + 1) p 0))
-  then sub p (off + 2) (off + 4) else zero2.
-
-(* q is a packet of the reverse direction of p's conversation: same length, protocol and
-   fragment field, addresses swapped and - when the protocol has ports and they are present -
-   ports swapped.  All other bytes (TCP flags, ICMP type, payload, TTL, ...) are unrelated. *)
-Definition twin_v4 (p q : bytes) : Prop :=
-  length q = length p /\ nth 9 q 0 = nth 9 p 0 /\ nth 6 q 0 = nth 6 p 0 /\ nth 7 q 0 = nth 7 p 0 /\
-  sub q 12 16 = sub p 16 20 /\ sub q 16 20 = sub p 12 16 /\
-  (has_ports (nth 9 p 0) = true -> (24 <= length p)%nat ->
-   sub q 20 22 = sub p 22 24 /\ sub q 22 24 = sub p 20 22).
-
-Definition twin_v6 (p q : bytes) : Prop :=
-  length q = length p /\ nth 6 q 0 = nth 6 p 0 /\
-  sub q 8 24 = sub p 24 40 /\ sub q 24 40 = sub p 8 24 /\
-  (has_ports (nth 6 p 0) = true -> (44 <= length p)%nat ->
-   sub q 40 42 = sub p 42 44 /\ sub q 42 44 = sub p 40 42).
-
-(* parse results agree up to reversal of the key (aux bytes are direction specific) *)
-Definition mirrored (rev : bytes -> bytes) (rp rq : res parsed) : Prop :=
-  match rp, rq with
-  | Ok (POk h _), Ok (POk h' _) => h' = rev h
-  | Ok Fragment, Ok Fragment => True
-  | Ok Truncated, Ok Truncated => True
-  | _, _ => False
-  end.
 
 (* ================================================================ list segments *)
 
@@ -114,9 +59,12 @@ Proof.
   rewrite firstn_app, Nat.sub_diag, firstn_all. cbn [firstn]. apply app_nil_r.
 Qed.
 
-Lemma sub_app_r : forall (a b : bytes) m n, m = length a -> sub (a ++ b) m n = sub b 0 (n - m).
+Lemma sub_app_r : forall (a b : bytes) m n m' n',
+  m = (length a + m')%nat -> n = (length a + n')%nat -> sub (a ++ b) m n = sub b m' n'.
 Proof.
-  intros a b m n ->. unfold sub. rewrite skipn_app, skipn_all, Nat.sub_diag, Nat.sub_0_r.
+  intros a b m n m' n' -> ->. unfold sub. rewrite skipn_app, skipn_all2 by lia.
+  replace (length a + m' - length a)%nat with m' by lia.
+  replace (length a + n' - (length a + m'))%nat with (n' - m')%nat by lia.
   reflexivity.
 Qed.
 
@@ -144,20 +92,22 @@ Section Hash.
 
   Lemma mk_hash_sport : k_sport a (mk_hash sip sp dip dp pr) = sp.
   Proof.
-    unfold k_sport, mk_hash. rewrite sub_app_r by lia.
-    replace (a + 2 - a)%nat with 2%nat by lia. apply sub_app_l. lia.
+    unfold k_sport, mk_hash. rewrite (sub_app_r sip _ _ _ 0 2)%nat by lia.
+    apply sub_app_l. lia.
   Qed.
 
   Lemma mk_hash_dip : k_dip a (mk_hash sip sp dip dp pr) = dip.
   Proof.
-    unfold k_dip, mk_hash. rewrite (app_assoc sip sp). rewrite sub_app_r by (rewrite app_length; lia).
+    unfold k_dip, mk_hash. rewrite (sub_app_r sip _ _ _ 2 (a + 2))%nat by lia.
+    rewrite (sub_app_r sp _ _ _ 0 a)%nat by lia.
     apply sub_app_l. lia.
   Qed.
 
   Lemma mk_hash_dport : k_dport a (mk_hash sip sp dip dp pr) = dp.
   Proof.
-    unfold k_dport, mk_hash. rewrite (app_assoc sip sp), (app_assoc (sip ++ sp) dip).
-    rewrite sub_app_r by (rewrite !app_length; lia).
+    unfold k_dport, mk_hash. rewrite (sub_app_r sip _ _ _ (a + 2) (a + 4))%nat by lia.
+    rewrite (sub_app_r sp _ _ _ a (a + 2))%nat by lia.
+    rewrite (sub_app_r dip _ _ _ 0 2)%nat by lia.
     apply sub_app_l. lia.
   Qed.
 
@@ -183,11 +133,10 @@ Section Hash.
     assert (L1 : length (sip ++ sp) = (a + 2)%nat) by (rewrite app_length; lia).
     assert (L2 : length (dip ++ dp) = (a + 2)%nat) by (rewrite app_length; lia).
     rewrite (sub_app_l (sip ++ sp)) by lia.
-    rewrite !(sub_app_r (sip ++ sp)) by lia.
-    replace (2 * a + 4 - (a + 2))%nat with (a + 2)%nat by lia.
+    rewrite (sub_app_r (sip ++ sp) _ _ _ 0 (a + 2))%nat by lia.
+    rewrite (sub_app_r (sip ++ sp) _ _ _ (a + 2) (a + 3))%nat by lia.
     rewrite (sub_app_l (dip ++ dp)) by lia.
-    rewrite (sub_app_r (dip ++ dp)) by lia.
-    replace (2 * a + 5 - (a + 2) - (a + 2))%nat with 1%nat by lia.
+    rewrite (sub_app_r (dip ++ dp) _ _ _ 0 1)%nat by lia.
     rewrite (sub_all [pr]) by reflexivity.
     rewrite <- !app_assoc. reflexivity.
   Qed.
@@ -229,9 +178,21 @@ Qed.
 Lemma common_port_documented : forall proto hi lo, hi < 256 -> lo < 256 ->
   common_port_b proto hi lo = is_documented_common proto (256 * hi + lo).
 Proof.
-  intros proto hi lo Hh Hl.
+  intros proto hi lo Hh Hl. apply eq_true_iff_eq.
   unfold common_port_b, common_ports, triple_eqb, is_documented_common, documented_common.
-  cbn [existsb fst snd]. lia.
+  cbn [existsb fst snd]. split; intro H.
+  - rewrite !orb_true_iff, !andb_true_iff, !N.eqb_eq in H.
+    repeat (destruct H as [H|H]); try discriminate H;
+      destruct H as [[-> ->] ->]; reflexivity.
+  - rewrite !orb_true_iff, !andb_true_iff, !N.eqb_eq in H.
+    repeat (destruct H as [H|H]); try discriminate H;
+      destruct H as [<- E];
+      match type of E with
+      | ?c = _ =>
+        let h := eval vm_compute in (c / 256) in
+        let l := eval vm_compute in (c mod 256) in
+        assert (hi = h) by lia; assert (lo = l) by lia; subst hi lo; reflexivity
+      end.
 Qed.
 
 (* ================================================================ pure parse functions *)
@@ -333,7 +294,7 @@ Proof. intros p H. exists (pure_v6 p). apply parse_v6_pure, H. Qed.
 Lemma frag_test : forall b6 b7,
   (N.lor (N.shiftl (N.land 31 b6) 8) b7 =? 0) = ((b6 mod 32 =? 0) && (b7 =? 0)).
 Proof.
-  intros b6 b7. change 31 with (N.ones 5). rewrite N.land_ones. change (2 ^ 5) with 32.
+  intros b6 b7. rewrite (N.land_comm 31 b6). change 31 with (N.ones 5). rewrite N.land_ones. change (2 ^ 5) with 32.
   apply eq_true_iff_eq. rewrite andb_true_iff, !N.eqb_eq, N.lor_eq_0_iff, N.shiftl_eq_0_iff.
   reflexivity.
 Qed.
@@ -344,11 +305,14 @@ Proof.
   destruct (negb (nth 9 p 0 =? ESP) && negb ((nth 6 p 0 mod 32 =? 0) && (nth 7 p 0 =? 0))).
   - tauto.
   - split; [|discriminate].
-    repeat match goal with |- context [if ?c then _ else _] => destruct c end; discriminate.
+    destruct (nth 9 p 0 =? TCP); [destruct (length p <? 34)%nat; discriminate|].
+    destruct (nth 9 p 0 =? UDP); [destruct (length p <? 24)%nat; discriminate|].
+    destruct (nth 9 p 0 =? ICMP); [destruct (length p <? 21)%nat; discriminate|].
+    discriminate.
 Qed.
 
 Lemma pure_v4_truncated : forall p, (20 <= length p)%nat ->
-  (pure_v4 p = Truncated <-> is_fragment_v4 p = false /\ (length p < need_v4 (nth 9 p 0))%nat).
+  (pure_v4 p = Truncated <-> is_fragment_v4 p = false /\ (length p < need_v4 (nth 9 p 0%N))%nat).
 Proof.
   intros p H20. unfold pure_v4, is_fragment_v4, need_v4. rewrite frag_test.
   destruct (negb (nth 9 p 0 =? ESP) && negb ((nth 6 p 0 mod 32 =? 0) && (nth 7 p 0 =? 0))).
@@ -361,3 +325,324 @@ Proof.
   { destruct (length p <? 21)%nat eqn:L; split; try discriminate; try tauto; intros; try split; try reflexivity; lia. }
   split; [discriminate|]. intros [_ L]. lia.
 Qed.
+
+Lemma pure_v6_not_fragment : forall p, pure_v6 p <> Fragment.
+Proof.
+  intros p. unfold pure_v6.
+  destruct (nth 6 p 0 =? TCP); [destruct (length p <? 54)%nat; discriminate|].
+  destruct (nth 6 p 0 =? UDP); [destruct (length p <? 44)%nat; discriminate|].
+  destruct (nth 6 p 0 =? ICMPv6); [destruct (length p <? 41)%nat; discriminate|].
+  discriminate.
+Qed.
+
+Lemma pure_v6_truncated : forall p, (40 <= length p)%nat ->
+  (pure_v6 p = Truncated <-> (length p < need_v6 (nth 6 p 0%N))%nat).
+Proof.
+  intros p H40. unfold pure_v6, need_v6.
+  destruct (nth 6 p 0 =? TCP).
+  { destruct (length p <? 54)%nat eqn:L; split; try discriminate; try tauto; intros; try reflexivity; lia. }
+  destruct (nth 6 p 0 =? UDP).
+  { destruct (length p <? 44)%nat eqn:L; split; try discriminate; try tauto; intros; try reflexivity; lia. }
+  destruct (nth 6 p 0 =? ICMPv6).
+  { destruct (length p <? 41)%nat eqn:L; split; try discriminate; try tauto; intros; try reflexivity; lia. }
+  split; [discriminate|]. intros L. lia.
+Qed.
+
+Lemma classify_fragment_v4 : forall p, (20 <= length p)%nat ->
+  (parse_v4 p = Ok Fragment <-> is_fragment_v4 p = true).
+Proof.
+  intros p H. rewrite parse_v4_pure by exact H. rewrite <- pure_v4_fragment.
+  split; [intros E; injection E; auto | intros ->; reflexivity].
+Qed.
+
+Lemma classify_truncated_v4 : forall p, (20 <= length p)%nat ->
+  (parse_v4 p = Ok Truncated <->
+   is_fragment_v4 p = false /\ (length p < need_v4 (nth 9 p 0%N))%nat).
+Proof.
+  intros p H. rewrite parse_v4_pure by exact H. rewrite <- (pure_v4_truncated p H).
+  split; [intros E; injection E; auto | intros ->; reflexivity].
+Qed.
+
+Lemma classify_fragment_v6 : forall p, parse_v6 p <> Ok Fragment.
+Proof.
+  intros p E. destruct (le_lt_dec 40 (length p)) as [H|H].
+  - rewrite parse_v6_pure in E by exact H. injection E. apply pure_v6_not_fragment.
+  - rewrite parse_v6_short in E by exact H. discriminate.
+Qed.
+
+Lemma classify_truncated_v6 : forall p, (40 <= length p)%nat ->
+  (parse_v6 p = Ok Truncated <-> (length p < need_v6 (nth 6 p 0%N))%nat).
+Proof.
+  intros p H. rewrite parse_v6_pure by exact H. rewrite <- (pure_v6_truncated p H).
+  split; [intros E; injection E; auto | intros ->; reflexivity].
+Qed.
+
+(* ================================================================ extracted fields *)
+
+Lemma mk_hash_fields : forall a sip sp dip dp pr,
+  length sip = a -> length sp = 2%nat -> length dip = a -> length dp = 2%nat ->
+  key_fields a (mk_hash sip sp dip dp pr) sip sp dip dp pr.
+Proof.
+  intros. unfold key_fields.
+  repeat split;
+    [apply mk_hash_length | apply mk_hash_sip | apply mk_hash_sport | apply mk_hash_dip
+     | apply mk_hash_dport | apply mk_hash_proto]; assumption.
+Qed.
+
+Lemma zero2_length : length zero2 = 2%nat.
+Proof. reflexivity. Qed.
+
+Lemma ports_pure_fields : forall a p off proto sip dip,
+  length sip = a -> length dip = a -> (off + 4 <= length p)%nat -> has_ports proto = true ->
+  key_fields a (ports_pure p off proto sip dip)
+    sip (sport_spec off p proto) dip (dport_spec off p proto) proto.
+Proof.
+  intros a p off proto sip dip Ls Ld L HP. unfold ports_pure, sport_spec, dport_spec.
+  rewrite HP. cbn [andb].
+  destruct (common_port_b proto (nth (off + 2) p 0) (nth (off + 3) p 0));
+    destruct (common_port_b proto (nth off p 0) (nth (off + 1) p 0)); cbn [negb];
+    apply mk_hash_fields; try assumption; try apply zero2_length; rewrite sub_length; lia.
+Qed.
+
+Lemma noports_fields : forall a p off proto sip dip,
+  length sip = a -> length dip = a -> has_ports proto = false ->
+  key_fields a (mk_hash sip zero2 dip zero2 proto)
+    sip (sport_spec off p proto) dip (dport_spec off p proto) proto.
+Proof.
+  intros a p off proto sip dip Ls Ld HP. unfold sport_spec, dport_spec. rewrite HP. cbn [andb].
+  apply mk_hash_fields; try assumption; apply zero2_length.
+Qed.
+
+Lemma has_ports_tcp : forall proto, (proto =? TCP) = true -> has_ports proto = true.
+Proof. intros proto H. unfold has_ports. rewrite H. reflexivity. Qed.
+Lemma has_ports_udp : forall proto, (proto =? UDP) = true -> has_ports proto = true.
+Proof. intros proto H. unfold has_ports. rewrite H. apply orb_true_r. Qed.
+Lemma has_ports_other : forall proto, (proto =? TCP) = false -> (proto =? UDP) = false ->
+  has_ports proto = false.
+Proof. intros proto H1 H2. unfold has_ports. rewrite H1, H2. reflexivity. Qed.
+
+Lemma fields_v4 : forall p h aux, parse_v4 p = Ok (POk h aux) ->
+  (20 <= length p)%nat /\ fields_spec 4 20 ICMP 12 9 p h aux.
+Proof.
+  intros p h aux E.
+  destruct (le_lt_dec 20 (length p)) as [H|H];
+    [|rewrite parse_v4_short in E by exact H; discriminate].
+  split; [exact H|].
+  rewrite parse_v4_pure in E by exact H. injection E as E. revert E.
+  unfold pure_v4, fields_spec, aux_spec. cbn [Nat.add Nat.mul].
+  assert (L1 : length (sub p 12 16) = 4%nat) by (rewrite sub_length; lia).
+  assert (L2 : length (sub p 16 20) = 4%nat) by (rewrite sub_length; lia).
+  destruct (negb (nth 9 p 0 =? ESP) && _); [discriminate|].
+  destruct (nth 9 p 0 =? TCP) eqn:Et.
+  { destruct (length p <? 34)%nat eqn:L; [discriminate|]. intros E. injection E as <- <-.
+    split; [|reflexivity]. apply ports_pure_fields; try assumption; [lia|apply has_ports_tcp, Et]. }
+  destruct (nth 9 p 0 =? UDP) eqn:Eu.
+  { destruct (length p <? 24)%nat eqn:L; [discriminate|]. intros E. injection E as <- <-.
+    assert (Ei : (nth 9 p 0 =? ICMP) = false) by (unfold ICMP, UDP in *; lia). rewrite Ei.
+    split; [|reflexivity]. apply ports_pure_fields; try assumption; [lia|apply has_ports_udp, Eu]. }
+  destruct (nth 9 p 0 =? ICMP) eqn:Ei.
+  { destruct (length p <? 21)%nat eqn:L; [discriminate|]. intros E. injection E as <- <-.
+    split; [|reflexivity]. apply noports_fields; try assumption. apply has_ports_other; assumption. }
+  intros E. injection E as <- <-.
+  split; [|reflexivity]. apply noports_fields; try assumption. apply has_ports_other; assumption.
+Qed.
+
+Lemma fields_v6 : forall p h aux, parse_v6 p = Ok (POk h aux) ->
+  (40 <= length p)%nat /\ fields_spec 16 40 ICMPv6 8 6 p h aux.
+Proof.
+  intros p h aux E.
+  destruct (le_lt_dec 40 (length p)) as [H|H];
+    [|rewrite parse_v6_short in E by exact H; discriminate].
+  split; [exact H|].
+  rewrite parse_v6_pure in E by exact H. injection E as E. revert E.
+  unfold pure_v6, fields_spec, aux_spec. cbn [Nat.add Nat.mul].
+  assert (L1 : length (sub p 8 24) = 16%nat) by (rewrite sub_length; lia).
+  assert (L2 : length (sub p 24 40) = 16%nat) by (rewrite sub_length; lia).
+  destruct (nth 6 p 0 =? TCP) eqn:Et.
+  { destruct (length p <? 54)%nat eqn:L; [discriminate|]. intros E. injection E as <- <-.
+    split; [|reflexivity]. apply ports_pure_fields; try assumption; [lia|apply has_ports_tcp, Et]. }
+  destruct (nth 6 p 0 =? UDP) eqn:Eu.
+  { destruct (length p <? 44)%nat eqn:L; [discriminate|]. intros E. injection E as <- <-.
+    assert (Ei : (nth 6 p 0 =? ICMPv6) = false) by (unfold ICMPv6, UDP in *; lia). rewrite Ei.
+    split; [|reflexivity]. apply ports_pure_fields; try assumption; [lia|apply has_ports_udp, Eu]. }
+  destruct (nth 6 p 0 =? ICMPv6) eqn:Ei.
+  { destruct (length p <? 41)%nat eqn:L; [discriminate|]. intros E. injection E as <- <-.
+    split; [|reflexivity]. apply noports_fields; try assumption. apply has_ports_other; assumption. }
+  intros E. injection E as <- <-.
+  split; [|reflexivity]. apply noports_fields; try assumption. apply has_ports_other; assumption.
+Qed.
+
+(* ================================================================ mirror law *)
+
+Lemma sub_eq_nth : forall (p q : bytes) a b c d i, sub q a b = sub p c d ->
+  (i < b - a)%nat -> (i < d - c)%nat -> nth (a + i) q 0 = nth (c + i) p 0.
+Proof.
+  intros p q a b c d i E H1 H2. rewrite <- (nth_sub q a b) by exact H1.
+  rewrite <- (nth_sub p c d) by exact H2. rewrite E. reflexivity.
+Qed.
+
+Definition rev_gen (a : nat) (h : bytes) : bytes :=
+  sub h (a + 2) (2 * a + 4) ++ sub h 0 (a + 2) ++ sub h (2 * a + 4) (2 * a + 5).
+
+Lemma ports_pure_mirror : forall a p q off proto sip dip,
+  length sip = a -> length dip = a -> (off + 4 <= length p)%nat ->
+  sub q off (off + 2) = sub p (off + 2) (off + 4) ->
+  sub q (off + 2) (off + 4) = sub p off (off + 2) ->
+  ports_pure q off proto dip sip = rev_gen a (ports_pure p off proto sip dip).
+Proof.
+  intros a p q off proto sip dip Ls Ld L E1 E2.
+  assert (N0 : nth off q 0 = nth (off + 2) p 0).
+  { generalize (sub_eq_nth p q off (off + 2) (off + 2) (off + 4) 0 E1).
+    rewrite !Nat.add_0_r. intros X. apply X; lia. }
+  assert (N1 : nth (off + 1) q 0 = nth (off + 3) p 0).
+  { generalize (sub_eq_nth p q off (off + 2) (off + 2) (off + 4) 1 E1).
+    replace (off + 2 + 1)%nat with (off + 3)%nat by lia. intros X. apply X; lia. }
+  assert (N2 : nth (off + 2) q 0 = nth off p 0).
+  { generalize (sub_eq_nth p q (off + 2) (off + 4) off (off + 2) 0 E2).
+    rewrite !Nat.add_0_r. intros X. apply X; lia. }
+  assert (N3 : nth (off + 3) q 0 = nth (off + 1) p 0).
+  { generalize (sub_eq_nth p q (off + 2) (off + 4) off (off + 2) 1 E2).
+    replace (off + 2 + 1)%nat with (off + 3)%nat by lia. intros X. apply X; lia. }
+  unfold ports_pure, rev_gen. rewrite N0, N1, N2, N3, E1, E2.
+  symmetry. apply reverse_mk_hash; try assumption.
+  - destruct (common_port_b proto (nth (off + 2) p 0) (nth (off + 3) p 0));
+      [apply zero2_length | rewrite sub_length; lia].
+  - destruct (common_port_b proto (nth off p 0) (nth (off + 1) p 0));
+      [apply zero2_length | rewrite sub_length; lia].
+Qed.
+
+Lemma noports_mirror : forall a proto sip dip, length sip = a -> length dip = a ->
+  mk_hash dip zero2 sip zero2 proto = rev_gen a (mk_hash sip zero2 dip zero2 proto).
+Proof.
+  intros. unfold rev_gen. symmetry. apply reverse_mk_hash; try assumption; apply zero2_length.
+Qed.
+
+Lemma mirror_v4 : forall p q, (20 <= length p)%nat -> twin_v4 p q ->
+  mirrored reverse_v4 (parse_v4 p) (parse_v4 q).
+Proof.
+  intros p q H (L & P9 & P6 & P7 & S1 & S2 & HP).
+  rewrite !parse_v4_pure by lia. unfold pure_v4. rewrite P9, P6, P7, L, S1, S2.
+  change reverse_v4 with (rev_gen 4).
+  assert (L1 : length (sub p 12 16) = 4%nat) by (rewrite sub_length; lia).
+  assert (L2 : length (sub p 16 20) = 4%nat) by (rewrite sub_length; lia).
+  destruct (negb (nth 9 p 0 =? ESP) && _); [exact I|].
+  destruct (nth 9 p 0 =? TCP) eqn:Et.
+  { destruct (length p <? 34)%nat eqn:Len; [exact I|]. cbn [mirrored].
+    destruct HP as [E1 E2]; [apply has_ports_tcp, Et | lia |].
+    apply ports_pure_mirror; try assumption. lia. }
+  destruct (nth 9 p 0 =? UDP) eqn:Eu.
+  { destruct (length p <? 24)%nat eqn:Len; [exact I|]. cbn [mirrored].
+    destruct HP as [E1 E2]; [apply has_ports_udp, Eu | lia |].
+    apply ports_pure_mirror; try assumption. lia. }
+  destruct (nth 9 p 0 =? ICMP).
+  { destruct (length p <? 21)%nat; [exact I|]. cbn [mirrored]. apply noports_mirror; assumption. }
+  cbn [mirrored]. apply noports_mirror; assumption.
+Qed.
+
+Lemma mirror_v6 : forall p q, (40 <= length p)%nat -> twin_v6 p q ->
+  mirrored reverse_v6 (parse_v6 p) (parse_v6 q).
+Proof.
+  intros p q H (L & P6 & S1 & S2 & HP).
+  rewrite !parse_v6_pure by lia. unfold pure_v6. rewrite P6, L, S1, S2.
+  change reverse_v6 with (rev_gen 16).
+  assert (L1 : length (sub p 8 24) = 16%nat) by (rewrite sub_length; lia).
+  assert (L2 : length (sub p 24 40) = 16%nat) by (rewrite sub_length; lia).
+  destruct (nth 6 p 0 =? TCP) eqn:Et.
+  { destruct (length p <? 54)%nat eqn:Len; [exact I|]. cbn [mirrored].
+    destruct HP as [E1 E2]; [apply has_ports_tcp, Et | lia |].
+    apply ports_pure_mirror; try assumption. lia. }
+  destruct (nth 6 p 0 =? UDP) eqn:Eu.
+  { destruct (length p <? 44)%nat eqn:Len; [exact I|]. cbn [mirrored].
+    destruct HP as [E1 E2]; [apply has_ports_udp, Eu | lia |].
+    apply ports_pure_mirror; try assumption. lia. }
+  destruct (nth 6 p 0 =? ICMPv6).
+  { destruct (length p <? 41)%nat; [exact I|]. cbn [mirrored]. apply noports_mirror; assumption. }
+  cbn [mirrored]. apply noports_mirror; assumption.
+Qed.
+
+(* ================================================================ every packet has a twin *)
+
+Section Swap.
+  Variables s a : nat.          (* address segments [s, s+a) and [s+a, s+2a); transport header at s+2a *)
+  Variable p : bytes.
+  Let h := (s + 2 * a)%nat.
+  Hypothesis Hlen : (h <= length p)%nat.
+
+  Lemma swap_pkt_length : length (swap_pkt s a p) = length p.
+  Proof.
+    unfold swap_pkt. fold h. destruct (h + 4 <=? length p)%nat eqn:E;
+      rewrite !app_length, !sub_length, skipn_length by lia; lia.
+  Qed.
+
+  Lemma swap_pkt_nth : forall i, (i < s)%nat -> nth i (swap_pkt s a p) 0 = nth i p 0.
+  Proof.
+    intros i Hi. unfold swap_pkt. rewrite app_nth1 by (rewrite sub_length by lia; lia).
+    rewrite nth_sub by lia. reflexivity.
+  Qed.
+
+  Lemma swap_pkt_sip : sub (swap_pkt s a p) s (s + a) = sub p (s + a) h.
+  Proof.
+    unfold swap_pkt. fold h.
+    rewrite (sub_app_r (sub p 0 s) _ _ _ 0 a)%nat by (rewrite sub_length by lia; lia).
+    apply sub_app_l. rewrite sub_length by lia. lia.
+  Qed.
+
+  Lemma swap_pkt_dip : sub (swap_pkt s a p) (s + a) h = sub p s (s + a).
+  Proof.
+    unfold swap_pkt. fold h.
+    rewrite (sub_app_r (sub p 0 s) _ _ _ a (2 * a))%nat by (rewrite sub_length by lia; lia).
+    rewrite (sub_app_r (sub p (s + a) h) _ _ _ 0 a)%nat by (rewrite sub_length by lia; lia).
+    apply sub_app_l. rewrite sub_length by lia. lia.
+  Qed.
+
+  Lemma swap_pkt_sport : (h + 4 <= length p)%nat ->
+    sub (swap_pkt s a p) h (h + 2) = sub p (h + 2) (h + 4).
+  Proof.
+    intros H4. unfold swap_pkt. fold h. replace (h + 4 <=? length p)%nat with true by lia.
+    rewrite (sub_app_r (sub p 0 s) _ _ _ (2 * a) (2 * a + 2))%nat by (rewrite sub_length by lia; lia).
+    rewrite (sub_app_r (sub p (s + a) h) _ _ _ a (a + 2))%nat by (rewrite sub_length by lia; lia).
+    rewrite (sub_app_r (sub p s (s + a)) _ _ _ 0 2)%nat by (rewrite sub_length by lia; lia).
+    apply sub_app_l. rewrite sub_length by lia. lia.
+  Qed.
+
+  Lemma swap_pkt_dport : (h + 4 <= length p)%nat ->
+    sub (swap_pkt s a p) (h + 2) (h + 4) = sub p h (h + 2).
+  Proof.
+    intros H4. unfold swap_pkt. fold h. replace (h + 4 <=? length p)%nat with true by lia.
+    rewrite (sub_app_r (sub p 0 s) _ _ _ (2 * a + 2) (2 * a + 4))%nat by (rewrite sub_length by lia; lia).
+    rewrite (sub_app_r (sub p (s + a) h) _ _ _ (a + 2) (a + 4))%nat by (rewrite sub_length by lia; lia).
+    rewrite (sub_app_r (sub p s (s + a)) _ _ _ 2 4)%nat by (rewrite sub_length by lia; lia).
+    rewrite (sub_app_r (sub p (h + 2) (h + 4)) _ _ _ 0 2)%nat by (rewrite sub_length by lia; lia).
+    apply sub_app_l. rewrite sub_length by lia. lia.
+  Qed.
+End Swap.
+
+Lemma swap_is_twin_v4 : forall p, (20 <= length p)%nat -> twin_v4 p (swap_pkt 12 4 p).
+Proof.
+  intros p H. unfold twin_v4.
+  split; [apply swap_pkt_length; exact H|].
+  split; [apply swap_pkt_nth; [exact H|lia]|].
+  split; [apply swap_pkt_nth; [exact H|lia]|].
+  split; [apply swap_pkt_nth; [exact H|lia]|].
+  split; [exact (swap_pkt_sip 12 4 p H)|].
+  split; [exact (swap_pkt_dip 12 4 p H)|].
+  intros _ H4. split; [exact (swap_pkt_sport 12 4 p H H4) | exact (swap_pkt_dport 12 4 p H H4)].
+Qed.
+
+Lemma swap_is_twin_v6 : forall p, (40 <= length p)%nat -> twin_v6 p (swap_pkt 8 16 p).
+Proof.
+  intros p H. unfold twin_v6.
+  split; [apply swap_pkt_length; exact H|].
+  split; [apply swap_pkt_nth; [exact H|lia]|].
+  split; [exact (swap_pkt_sip 8 16 p H)|].
+  split; [exact (swap_pkt_dip 8 16 p H)|].
+  intros _ H4. split; [exact (swap_pkt_sport 8 16 p H H4) | exact (swap_pkt_dport 8 16 p H H4)].
+Qed.
+
+Lemma mirror_swap_v4 : forall p, (20 <= length p)%nat ->
+  mirrored reverse_v4 (parse_v4 p) (parse_v4 (swap_pkt 12 4 p)).
+Proof. intros p H. apply mirror_v4; [exact H | apply swap_is_twin_v4, H]. Qed.
+
+Lemma mirror_swap_v6 : forall p, (40 <= length p)%nat ->
+  mirrored reverse_v6 (parse_v6 p) (parse_v6 (swap_pkt 8 16 p)).
+Proof. intros p H. apply mirror_v6; [exact H | apply swap_is_twin_v6, H]. Qed.
